@@ -125,6 +125,13 @@ class Command(ctypes.Structure):
             raise TypeError(
                 f"command {self.__class__.__name__} could not be created, since: {err}"
             )
+        # ctypes silently truncates integers that do not fit their field
+        for name, value in kwargs.items():
+            if isinstance(value, int) and getattr(self, name) != value:
+                raise ValueError(
+                    f"command {self.__class__.__name__} could not be created, since: "
+                    f"value {value} does not fit in field '{name}'"
+                )
 
 
 def add_padding(fields):
